@@ -23,8 +23,9 @@ fields("YowLayerEvent", name=Str, detached=Bool, args=DictStrObj, __file__="yows
 inline(LAYERS, "YowLayerEvent.__init__")
 inline(LAYERS, "YowLayerEvent.getArg")
 fields("YowNoiseLayer", _incoming_segments_queue=Opaque("queue"), _wa_noiseprotocol=Opaque("noise"), _stream=Opaque("stream"), _profile=Opt(Opaque("profile")),
-       _rs=Opt(Opaque("key")), _handshake_worker=Opt(Opaque("worker")))
+       _rs=Opt(Opaque("key")), _handshake_worker=Opt(Opaque("worker")), _flush_lock=Opaque("lock"))
 event_sort("toLower", "obj")
+event_sort("toUpper", "obj")
 event_sort("setProp", "obj")
 event_sort("emitEvent", "obj")
 event_sort("broadcastEvent", "obj")
@@ -34,7 +35,7 @@ opaque(LAYERS, "YowLayer.setProp", event="setProp")
 opaque(LAYERS, "YowLayer.emitEvent", event="emitEvent", raises=True)
 opaque(LAYERS, "YowLayer.broadcastEvent", event="broadcastEvent", raises=True)
 opaque(NOISE, "YowNoiseLayer._in_handshake", event="in_handshake", returns=Bool)
-opaque(NOISE, "YowNoiseLayer._flush_incoming_buffer", event="flush", raises=True)       # its own contract: contracts/C12_locks.py
+opaque(NOISE, "YowNoiseLayer._flush_incoming_buffer", event="flush", raises=True)       # lock balance: contracts/C12_locks.py; draining: below
 opaque(LAYERS, "YowLayer.toUpper", event="toUpper", raises=True)
 
 opaque("yowsup/layers/coder/encoder.py", "WriteEncoder.protocolTreeNodeToBytes", event="encode", returns=Bytes, raises=True)
@@ -70,6 +71,48 @@ def noise_receive(self: Obj("YowNoiseLayer"), data: Bytes):
     ensures(n_events("flush") == (0 if event_result("in_handshake", 0) else 1))
     ensures(implies(not event_result("in_handshake", 0), at_event("flush", 0, lambda: n_events("queue.put") == 1)))
     propagates("flush", ensures=n_events("queue.put") == 1)
+
+
+# ---- flushing: every buffered frame is decrypted and handed upward, in order, each exactly once, until the queue is seen empty --------
+extern("queue.qsize", event="queue.qsize", returns=Int)
+extern("queue.empty", event="queue.empty", returns=Bool)
+extern("noise.receive", event="noise.receive", raises=True, returns=Value("frame"))
+extern("lock.acquire", event="lock.acquire")
+extern("lock.release", event="lock.release")
+extern("lock.__enter__", event="lock.acquire")
+extern("lock.__exit__", event="lock.release")
+
+
+def polls():
+    return n_events("queue.qsize") + n_events("queue.empty")
+
+
+def seen_empty_last():
+    """the last look at the queue (qsize() or empty(), whichever the code uses) found it empty, every earlier one did not"""
+    return (n_events("queue.empty") == 0 and n_events("queue.qsize") >= 1 and event_result("queue.qsize", n_events("queue.qsize") - 1) <= 0
+            and forall(range(0, n_events("queue.qsize") - 1), lambda i: event_result("queue.qsize", i) != 0)) \
+        or (n_events("queue.qsize") == 0 and n_events("queue.empty") >= 1 and event_result("queue.empty", n_events("queue.empty") - 1)
+            and forall(range(0, n_events("queue.empty") - 1), lambda i: not event_result("queue.empty", i)))
+
+
+@contract(NOISE, "YowNoiseLayer._flush_incoming_buffer", opaque_at_calls=True)
+def flush_drains(self: Obj("YowNoiseLayer")):
+    # one decrypted frame per look at a non-empty queue, handed upward at once and unchanged: so frames go up in the cipher's order,
+    # each exactly once, and the flush only returns after it has seen the queue empty (nothing buffered during the handshake is left behind)
+    ensures(n_events("toUpper") == n_events("noise.receive") and polls() == n_events("noise.receive") + 1 and seen_empty_last())
+    ensures(forall(range(0, n_events("toUpper")), lambda i: same_obj(event_arg("toUpper", i), event_result("noise.receive", i))))
+    ensures(n_events("toLower") == 0)
+    propagates("*")
+
+
+@loop(NOISE, "YowNoiseLayer._flush_incoming_buffer", 1)
+def flush_drain_loop(self):
+    partial("the loop runs while the segment queue is non-empty; queue.Queue is opaque, so termination is not decided")
+    invariant(n_events("toUpper") == n_events("noise.receive") and polls() == n_events("noise.receive") and n_events("toLower") == 0)
+    invariant(n_events("queue.empty") == 0 or n_events("queue.qsize") == 0)
+    invariant(forall(range(0, n_events("queue.qsize")), lambda i: event_result("queue.qsize", i) != 0))
+    invariant(forall(range(0, n_events("queue.empty")), lambda i: not event_result("queue.empty", i)))
+    invariant(forall(range(0, n_events("toUpper")), lambda i: same_obj(event_arg("toUpper", i), event_result("noise.receive", i))))
 
 
 @contract(NOISE, "YowNoiseLayer.on_disconnected")
@@ -163,3 +206,19 @@ def on_auth(self: Obj("YowNoiseLayer"), event: Obj("YowLayerEvent")):
     ensures(implies(n_events("HandshakeWorker") == 1, not event_result("in_handshake", 0) and same_obj(self._rs, field(cfg(self), "server_static_public"))))
     ensures(implies(field(cfg(self), "client_static_keypair") is not None and event_result("in_handshake", 0), n_events("HandshakeWorker") == 0))
     propagates("*")
+
+
+# =====================================================================================================================
+# native generators (replay / directed search on the real functions)
+# =====================================================================================================================
+def gen__flush_incoming_buffer(rng, n):
+    """k buffered frames (k = 0..4): the queue reports k, k-1, ..., 0 (qsize) / not-empty x k, empty (empty); the cipher returns
+    k distinct frames, one of them empty"""
+    for i in range(min(n, 80)):
+        k = i % 5
+        frames = [b'' if (j == 1 and i % 2) else bytes([65 + j]) * (j + 1) for j in range(k + 1)]
+        yield {'inputs': {'self': {'_incoming_segments_queue': {'$opaque': 'queue'}, '_wa_noiseprotocol': {'$opaque': 'noise'},
+                                   '_stream': {'$opaque': 'stream'}, '_profile': None, '_rs': None, '_handshake_worker': None,
+                                   '_flush_lock': {'$opaque': 'lock'}}},
+               'opaque_results': {'queue.qsize': list(range(k, -1, -1)) + [0] * 3, 'queue.empty': [False] * k + [True] * 4,
+                                  'noise.receive': frames}}
